@@ -5,7 +5,7 @@ from .. import engines, harness, seqschema
 from ..pool import Pool
 from ..prng import Rng, derive
 
-BASE_W = {'new': 6, 'set': 5, 'setmany': 2, 'rel': 4, 'add': 3, 'remove': 3, 'clear': 1, 'assign': 2, 'create_in': 2,
+BASE_W = {'new': 6, 'set': 5, 'setmany': 2, 'setmix': 2, 'seq_probe': 2, 'rel': 4, 'add': 3, 'remove': 3, 'clear': 1, 'assign': 2, 'create_in': 2,
           'del': 3, 'set_none': 1, 'setpk': 1, 'flush': 2, 'commit': 1, 'rollback': 1, 'seq_in': 2, 'new_rawfk': 1,
           'r_attr': 2, 'r_pk': 1, 'r_get': 1, 'r_exists': 1, 'r_select': 1, 'r_count': 1, 'r_aggr': 1, 'r_coll': 2,
           'r_todict': 1}
@@ -16,9 +16,11 @@ FOCUS = {
               'r_todict': 2, 'flush': 1},
     'delete': {'del': 8, 'new': 8, 'rel': 5, 'add': 4, 'create_in': 4},
     'keys': {'new': 9, 'set': 8, 'setmany': 4, 'del': 3, 'setpk': 2},
-    'fail': {'new': 8, 'set': 6, 'setmany': 5, 'rel': 6, 'del': 6, 'set_none': 2, 'setpk': 2, 'assign': 3, 'remove': 4},
-    'rels': {'rel': 8, 'add': 6, 'remove': 5, 'assign': 4, 'clear': 2, 'create_in': 4, 'r_attr': 4, 'r_coll': 4,
+    'fail': {'new': 8, 'set': 6, 'setmany': 5, 'setmix': 6, 'rel': 6, 'del': 6, 'set_none': 2, 'setpk': 2, 'assign': 3, 'remove': 4},
+    'rels': {'setmix': 4, 'seq_probe': 6, 'rel': 8, 'add': 6, 'remove': 5, 'assign': 4, 'clear': 2, 'create_in': 4, 'r_attr': 4, 'r_coll': 4,
              'seq_in': 6},
+    # obj.set(...) / constructors that touch several relationships at once, on the variants where a later part refuses
+    'mix': {'setmix': 12, 'set': 6, 'create_in': 5, 'new': 8, 'remove': 3, 'add': 3, 'seq_probe': 3, 'del': 3},
     'order': {'new': 10, 'rel': 6, 'del': 5, 'add': 3, 'create_in': 4, 'flush': 1},
 }
 
@@ -59,7 +61,10 @@ def gen_case(seed, i, tier, focus='default', loading=False, tag='seq'):
             knobs['max_params_count'] = r.choice([2, 3, 5])
         knobs['nplus1'] = r.choice([None, 0, 1, 3])
         knobs['prefetch'] = r.chance(0.3)
-    return {'engine': 'seq', 'seed': rs, 'variant': r.choice(list(seqschema.VARIANTS)), 'knobs': knobs,
+    variant = r.choice(list(seqschema.VARIANTS))
+    if focus == 'mix':
+        variant = r.choice(['car_nocascade', 'car_nocascade', 'car_nocascade', 'group_owner', 'base'])
+    return {'engine': 'seq', 'seed': rs, 'variant': variant, 'knobs': knobs,
             'sessions': sessions, 'flush_policy': r.choice(['never', 'never', 'always', 'seeded'])}
 
 
